@@ -88,6 +88,10 @@ def explicit(tier, seed):
                     continue
                 yield {"kind": "defined", "suite": sid, "ver": list(v),
                        "seed": sd}
+                if s.kx == "dhe" and not s.tls13 and d is True:
+                    yield {"kind": "defined", "suite": sid, "ver": list(v),
+                           "seed": sd, "odd_dh": True,
+                           "no_ems": (sid + sd) % 2 == 0}
                 if sd == seeds[0] and s.auth in ("rsa", "ecdsa", "dsa") \
                         and d is True:
                     for wrong in ("rsa", "ecdsa", "dsa", "rsapss",
@@ -306,14 +310,96 @@ def check_resume_lower(case):
 
 
 # ---------------------------------------------------------------------------
+ODD_DH_P = int(
+    "ff035fafee7a2afbd98a37907c1b8431dbd2e7bfe282fb2095db29fcacd18a3ef16aa8"
+    "5f92fca1839cd9ea66d7c5f00ecd06bb2161db37e0b9065bf48c3a4909a645698e1a69"
+    "3f88b1a5e53272d818c9b81f4d0e1f44e2eb781b556c02d683698fabdb8acbff975082"
+    "188dc551489234be913c96c3debcb1fe931320f919bde9e9", 16)   # 1032 bits
+
+
+def check_master_derivations(s, v, p, derivations, labels):
+    """The master secret both sessions hold is the value the negotiated
+    version and the suite's PRF define for the premaster secret that the
+    key exchange produced."""
+    if len(derivations) < 2:
+        raise HarnessError("master secret derivations not observed: %d" %
+                           len(derivations))
+    masters = set()
+    for ver, pre, label, kw, out in derivations:
+        if ver != v:
+            return bad("master-secret:version", "%r in %r" % (ver, v),
+                       labels=labels)
+        if label == b"master secret":
+            want = kdf.master_secret(v, s.prf, pre, kw["client_random"],
+                                     kw["server_random"])
+        else:
+            hh = kw["handshake_hashes"]
+            if v == (3, 3):
+                sh = hh[s.prf]
+            else:
+                sh = hh["md5"] + hh["sha1"]
+            want = kdf.extended_master_secret(v, s.prf, pre, bytes(sh))
+        labels.append("premaster-len-%s" % ("odd" if len(pre) % 2
+                                            else "even"))
+        if out != want:
+            return bad("master-secret-not-as-defined:%s:%s" % (
+                sc.VERNAME[v], "odd" if len(pre) % 2 else "even"),
+                "%s from a %d byte premaster secret differs from the "
+                "%s PRF value" % (label.decode(), len(pre),
+                                  s.prf if v == (3, 3) else "version's"),
+                labels=labels)
+        masters.add(out)
+    for conn in (p.c, p.s):
+        if bytes(conn.session.masterSecret) not in masters:
+            return bad("master-secret-not-the-derived-one", "",
+                       labels=labels)
+    return None
+
+
 def check_defined(case):
     sid, v = case["suite"], tuple(case["ver"])
     s = iana.SUITES[sid]
     vn = sc.VERNAME[v]
     labels = ["defined", "ver=" + vn, "kx=%s" % s.kx]
     DET.reseed("C20", sid, v, case.get("seed", 1))
-    copts, sopts = sc.pin(s, v, etm=False)
-    p = sc.connect(copts, sopts)
+    c_extra = s_extra = None
+    if case.get("odd_dh"):
+        # a group whose prime has an odd number of bytes: the premaster
+        # secret (leading zero bytes stripped) has odd length as a rule
+        s_extra = {"dhParams": (2, ODD_DH_P), "dhGroups": []}
+        c_extra = {"dhGroups": []}
+        labels.append("odd-dh-group")
+    copts, sopts = sc.pin(s, v, etm=False, c_extra=c_extra, s_extra=s_extra)
+    if case.get("no_ems"):
+        copts["settings"].useExtendedMasterSecret = False
+        labels.append("no-ems")
+    import tlslite.tlsconnection as tc
+    derivations = []
+    real_calc_key = tc.calc_key
+
+    def observed_calc_key(version, secret, cipher_suite, label, **kw):
+        out = real_calc_key(version, secret, cipher_suite, label, **kw)
+        if label in (b"master secret", b"extended master secret"):
+            hh = kw.get("handshake_hashes")
+            if hh is not None:
+                # (the transcript object lives on: its value as of now)
+                kw = dict(kw, handshake_hashes={
+                    h: bytes(hh.digest(h)) for h in ("md5", "sha1", "sha256",
+                                                     "sha384")})
+            derivations.append((tuple(version), bytes(secret), label, {
+                k: (bytes(x) if isinstance(x, (bytes, bytearray)) else x)
+                for k, x in kw.items()}, bytes(out)))
+        return out
+    # (an observer in the harness: the arguments pass through unchanged)
+    tc.calc_key = observed_calc_key
+    try:
+        p = sc.connect(copts, sopts)
+    finally:
+        tc.calc_key = real_calc_key
+    if p.both_ok and v <= (3, 3) and not s.draft:
+        err = check_master_derivations(s, v, p, derivations, labels)
+        if err:
+            return err
     if not p.both_ok:
         if sid in DEAD_SUITES:
             # cannot be negotiated under any settings: outside 'every suite
